@@ -121,6 +121,9 @@ def _subs(tier, prop):
             sp['devices'][0]['cycle'] = c0
             S.append(mk_sub(f'F8-budget-cut-and-raised-c0={c0}', sp, mons, zero=['cs'], pre=['t0 < t1']))
         S.append(mk_sub('F7-batches-into-batcher-slow-consumer', batches_into_batcher(), mons, zero=['cs', 'c0']))
+        S.append(mk_sub('F7-buffer-into-batcher-sizeNone', buffer_into_batcher(None), mons, zero=['c0', 'd1', 'cs'],
+                        ranges={'b0': (0, 3), 'b1': (0, 3)}))
+        S.append(mk_sub('F7-buffer-into-batcher-size2', buffer_into_batcher(2), mons, zero=['c0', 'd1'], ranges={'b0': (0, 3), 'b1': (0, 3)}))
     elif prop == 'C03':
         mons = ['wakeup']
         for kinds in (['P', 'B'] if q else ['H', 'P', 'B', 'HP', 'PB', 'BP']):
